@@ -610,6 +610,19 @@ var c10Programs = []struct{ name, src string }{
 	{"str-methods-odd-args", "for m in ['find', 'count', 'split', 'replace', 'startswith', 'join', 'strip']:\n    for a in [(), (1,), ('a', 'b', 'c', 'd'), (None,), ('a', -100, 100), ('a', 2**70)]:\n        try:\n            getattr('abcabc', m)(*a)\n        except Exception:\n            pass\n"},
 }
 
+// every text of the reject templates executed as a program: whatever the compile pipeline lets through must still end in a
+// Python exception when it runs (a statement the compiler should have refused must not reach the VM's internal panics)
+func init() {
+	var sb strings.Builder
+	sb.WriteString("class CM:\n    def __enter__(self):\n        return self\n    def __exit__(self, *a):\n        return False\nSRC = [\n")
+	for _, tpl := range rejectTemplates {
+		sb.WriteString("    " + PyStr(tpl) + ",\n")
+	}
+	sb.WriteString("]\nfor src in SRC:\n    ns = {'a': CM(), 'b': CM(), 'c': 1, 'y': [1, 2], 'x': 0, 'A': KeyError, 'B': ValueError}\n    try:\n        exec(src, ns)\n    except BaseException:\n        continue\n" +
+		"    for name in ['f', 'C', 'g']:\n        fn = ns.get(name)\n        if fn is not None:\n            try:\n                r = fn()\n                if name == 'f' and r is not None:\n                    list(r)\n            except BaseException:\n                pass\n")
+	c10Programs = append(c10Programs, struct{ name, src string }{"reject-templates-executed", sb.String()})
+}
+
 func TestC10Child(t *testing.T) {
 	idx := os.Getenv("VERIF_C10_PROG")
 	if idx == "" {
